@@ -189,6 +189,12 @@ CHAINS = {
     "shuffle_add1": (lambda x: x.shuffle("b", shuffle_method="tasks") + 1, True, False),
     "bjoin": (lambda x: x.merge(_small_coll(), on="b", broadcast=True, shuffle_method="tasks"), True, False),
     "bjoin_left": (lambda x: x.merge(_small_coll(), on="b", how="left", broadcast=True, shuffle_method="tasks"), True, False),
+    # operations whose partition i needs rows of neighbouring / all earlier partitions (D82)
+    "shift1": (lambda x: x.shift(1), False, False),
+    "shift_m1": (lambda x: x.shift(-1), False, False),
+    "diff1": (lambda x: x[["a", "b"]].diff(1), False, False),
+    "cumsum": (lambda x: x[["a", "b"]].cumsum(), False, False),
+    "rolling2": (lambda x: x.a.rolling(2).sum(), False, False),
     "sort_a": (lambda x: x.sort_values("a"), False, True),
     "sort_a_desc": (lambda x: x.sort_values("a", ascending=False), False, True),
     "set_index_a": (lambda x: x.set_index("a"), False, True),
@@ -462,7 +468,8 @@ _MECHANISM = {"id": None, "assign_series": "elemwise-series-operand", "mul_axis0
               "bcast_series": "broadcast-operand", "bcast_where": "broadcast-operand", "mappart": "map_partitions",
               "mappart_bcast": "broadcast-operand", "add1_filter_proj": "elemwise", "repart3": "repartition", "repart7": "repartition",
               "shuffle_tasks": "shuffle", "shuffle_tasks_mb2": "shuffle", "shuffle_tasks_up_mb2": "shuffle", "shuffle_disk": "shuffle", "shuffle_add1": "shuffle",
-              "bjoin": "broadcast-join", "bjoin_left": "broadcast-join", "sort_a": "sort", "sort_a_desc": "sort", "set_index_a": "set_index"}
+              "bjoin": "broadcast-join", "bjoin_left": "broadcast-join", "sort_a": "sort", "sort_a_desc": "sort", "set_index_a": "set_index",
+              "shift1": "overlap", "shift_m1": "overlap", "diff1": "overlap", "rolling2": "overlap", "cumsum": "cumulative"}
 
 
 def _signature(case, what):
@@ -539,6 +546,12 @@ MUST_RUN = [
     {"source": "from_pandas_one", "chain": "mul_axis0", "sel": {"kind": "tail", "n": 2}},
     {"source": "from_pandas_dupidx_one", "chain": "assign_series", "sel": {"kind": "head", "n": 2, "k": 1}},
     {"source": "from_pandas", "chain": "mul_axis0", "sel": {"kind": "nested_head", "n1": 7, "k1": 2, "n2": 6}},
+    {"source": "from_pandas", "chain": "shift1", "sel": {"kind": "partitions", "P": [1, 2]}},             # D82
+    {"source": "from_pandas", "chain": "shift_m1", "sel": {"kind": "partitions", "P": [1]}},
+    {"source": "from_pandas", "chain": "diff1", "sel": {"kind": "partitions", "P": [2, 1]}},
+    {"source": "from_pandas", "chain": "rolling2", "sel": {"kind": "get_partition", "P": [2]}},
+    {"source": "from_pandas", "chain": "cumsum", "sel": {"kind": "partitions", "P": [2]}},
+    {"source": "from_pandas", "chain": "shift1", "sel": {"kind": "to_delayed_sel", "P": [2, 1]}},
     # staged task shuffle that increases the partition count, selection that is not a prefix
     {"source": "from_pandas", "chain": "shuffle_tasks_up_mb2", "sel": {"kind": "partitions", "P": [2, 3, 4, 5, 6]}},
     {"source": "from_pandas", "chain": "shuffle_tasks_up_mb2", "sel": {"kind": "partitions", "P": [7, 0, 3, 1]}},
